@@ -495,6 +495,7 @@ type HuntHit struct {
 	Sp      *SpCase `json:"sp,omitempty"`
 	Sc      *ScCase `json:"sc,omitempty"`
 	Hist    *HistCase `json:"hist,omitempty"`
+	VP      *VPCase `json:"vp,omitempty"`
 	Failure string  `json:"failure"`
 	Aliased string  `json:"aliased"`
 	Fresh   string  `json:"fresh"`
